@@ -30,7 +30,7 @@ SPEC = dict(
                  "day-of-year 366 in a non-leap year is not generated (the statement does not say whether it matches)"],
     required=["fake_runs", "real_git_runs", "scope:default", "scope:global", "scope:branch", "ignore_runs",
               "impossible_date_tags", "tie_cases", "uniqueness_checked", "no_matching_tag_cases", "cli_tag_scope_overrides", "show_pep440_line_checked", "fetch_failure_cases", "legacy_pattern_runs", "line_separator_in_tag_name", "non_utf8_tag_names", "real_git_column_ui_always", "unicode_blank_at_tag_edge",
-              "planned_result_is_a_pep440_equal_tag_elsewhere"],
+              "planned_result_is_a_pep440_equal_tag_elsewhere", "fake_hg_runs", "hg_changesets_with_several_tags"],
     anchors=[("cli", "_parse_version_tags"), ("cli", "get_latest_vcs_version_tag"), ("cli", "_update_cfg_from_vcs"),
              ("vcs", "get_tags"), ("v2version", "is_valid"), ("v1version", "is_valid")],
 )
@@ -293,15 +293,31 @@ def run_fake(ctx, case):
             kinds.add("valid")
             ctx.count("planned_result_is_a_tag_elsewhere")
     d = harness.new_project(make_project(p, cur, scope if (scope != "default" or R.random() < 0.5) else None))
-    fake = harness.FakeVCS(d, "git")
+    use_hg = R.random() < 0.2
+    fake = harness.FakeVCS(d, "hg" if use_hg else "git")
     try:
         raw_extra = b""
-        if R.random() < 0.1:
+        if R.random() < 0.1 and not use_hg:
             raw_extra = b"caf\xe9-nightly\n"      # a tag name that is not valid UTF-8 (git does not care)
             kinds.add("non-utf8-name")
             ctx.count("non_utf8_tag_names")
-        fake.set_out("tag-list", "".join(t + "\n" for t in tags_all).encode("utf-8") + raw_extra)
-        fake.set_out("tag-merged", "".join(t + "\n" for t in tags_merged).encode("utf-8") + raw_extra)
+        if use_hg:
+            # the hg command set: `hg tags` prints "name   rev:node" lines (and `tip`); the branch-scope query prints
+            # the tags of one changeset on ONE line, separated by blanks
+            ctx.count("fake_hg_runs")
+            lines = ["tip" + " " * 30 + "9:aaaaaaaaaaaa"] + [f"{t:<32} {i}:bbbbbbbbbbbb" for i, t in enumerate(tags_all)]
+            fake.set_out("tag-list", "\n".join(lines) + "\n")
+            grouped, rest = ["tip"], list(tags_merged)
+            while rest:
+                k = R.choice([1, 1, 2, 3])
+                grouped.append(" ".join(rest[:k]))
+                if k > 1 and len(rest) >= 2:
+                    ctx.count("hg_changesets_with_several_tags")
+                rest = rest[k:]
+            fake.set_out("tag-merged", "\n".join(grouped) + "\n")
+        else:
+            fake.set_out("tag-list", "".join(t + "\n" for t in tags_all).encode("utf-8") + raw_extra)
+            fake.set_out("tag-merged", "".join(t + "\n" for t in tags_merged).encode("utf-8") + raw_extra)
         ctx.count("fake_runs")
         if "line-separator-in-name" in kinds:
             ctx.count("line_separator_in_tag_name")
@@ -310,8 +326,8 @@ def run_fake(ctx, case):
         fetch_fails = R.random() < 0.12
         if fetch_fails:
             fake.set_out("branch", "*origin\n")
-            fake.set_out("remote", "git@unreachable.example:x/y.git\n")
-            fake.fail_match(["git fetch"])
+            fake.set_out("remote", "git@unreachable.example:x/y.git\n" if not use_hg else "default = https://unreachable.example/x\n")
+            fake.fail_match(["git fetch", "hg pull"])
         observe(ctx, case, d, fake.env, p, ast, tdy, cur, tags_all, tags_merged, scope, cli_scope, ignore, "fake", kinds,
                 fetch_fails=fetch_fails)
     finally:
